@@ -6,7 +6,8 @@
    its closed-form inverse and x_first_derivative.  Arguments are extended reals (ext R). *)
 From Coq Require Import List Arith Bool Reals QArith.
 From Coquelicot Require Import Coquelicot.
-From RV Require Import Base.RB Base.ExtNum Model.Copula Proofs.C11_Copula Proofs.C11_Clayton.
+From RV Require Import Base.RB Base.ExtNum Model.Copula Proofs.C11_Copula Proofs.C11_Clayton Proofs.C11_Increasing Proofs.C11_Dep3
+  Proofs.C11_CondDist Proofs.C11_Mixed.
 Import ListNotations.
 Open Scope R_scope.
 
@@ -44,27 +45,42 @@ Qed.
 Theorem C11_indep_increasing : copula2_ok (indep RNum) /\ copula3_ok (indep RNum).
 Proof. exact (conj indep_copula2_ok indep_copula3_ok). Qed.
 
-(* full statement: also copula3_ok (dep RNum); d = 3 is covered by the implementation oracle only *)
-Theorem C11_dep_increasing_partial : copula2_ok (dep RNum).
-Proof. exact dep_copula2_ok. Qed.
+Theorem C11_dep_increasing : copula2_ok (dep RNum) /\ copula3_ok (dep RNum).
+Proof. exact (conj dep_copula2_ok dep_copula3_ok). Qed.
 
-(* full statement: every rectangle of (-inf, inf]^2 (across quadrants, end points 0 and +-inf) and d = 3;
-   proved: every rectangle with finite end points inside one open quadrant, every theta > 0, eta in [0,1] *)
-Theorem C11_clayton_2_increasing_partial : forall th et, 0 < th -> 0 <= et <= 1 ->
-  forall u1 u2 v1 v2 : R, u1 <= u2 -> v1 <= v2 -> (0 < u1 \/ u2 < 0) -> (0 < v1 \/ v2 < 0) ->
-  0 <= clayton th et [Fin u2; Fin v2] - clayton th et [Fin u2; Fin v1] - clayton th et [Fin u1; Fin v2] + clayton th et [Fin u1; Fin v1].
-Proof. exact clayton_2_increasing_orthant. Qed.
+(* Clayton, every theta > 0, eta in [0,1]: EVERY rectangle of (-inf, inf]^d with a finite side -- across quadrants /
+   octants, end points 0 and +-inf included -- has non-negative volume, d = 2 and 3 (kernel in p = |u|^-theta coordinates:
+   finite differences of t^(-1/theta) by the mean value theorem; assembly by splitting at 0 with weights eta, 1-eta >= 0) *)
+Theorem C11_clayton_increasing : forall th et, 0 < th -> 0 <= et <= 1 -> copula2_ok (clayton th et) /\ copula3_ok (clayton th et).
+Proof. intros. split; [apply clayton_copula2_ok | apply clayton_copula3_ok]; assumption. Qed.
+
+(* the Clayton conditional distribution x |-> F_eps(x) is a distribution function: values in [0,1], non-decreasing (across 0
+   too), limits 0 / 1, and the closed-form inverse is a right inverse on (0,1) minus the value at the jump-free point x = 0 *)
+Theorem C11_conditional_distribution : forall th et eps, 0 < th -> eps <> 0 ->
+  (0 <= et <= 1 -> forall x, x <> 0 -> 0 <= clayton_cond th et eps x <= 1) /\
+  (0 <= et <= 1 -> forall x y, x <> 0 -> y <> 0 -> x <= y -> clayton_cond th et eps x <= clayton_cond th et eps y) /\
+  (0 < et < 1 -> forall u, 0 < u < 1 -> u <> (if Rleb 0 eps then 1 - et else et) -> clayton_cond th et eps (clayton_inv th et eps u) = u) /\
+  (0 < et < 1 -> forall delta, 0 < delta -> exists M, 0 < M /\ (forall x, M < x -> 1 - delta <= clayton_cond th et eps x <= 1) /\
+                                                     (forall x, x < - M -> 0 <= clayton_cond th et eps x <= delta)).
+Proof.
+  intros th et eps Hth He. split; [|split; [|split]].
+  - intros Het x Hx. apply cond_range; assumption.
+  - intros Het x y Hx Hy Hxy. apply cond_monotone; assumption.
+  - intros Het u Hu Hj. apply cond_right_inverse; assumption.
+  - intros Het delta Hd. apply cond_limits; assumption.
+Qed.
 
 (* the stated inverse inverts the conditional distribution, both signs of eps and of x *)
 Theorem C11_conditional_inverse : forall th et, 0 < th -> 0 < et < 1 ->
   forall eps x, eps <> 0 -> x <> 0 -> clayton_inv th et eps (clayton_cond th et eps x) = x.
 Proof. exact clayton_inverse. Qed.
 
-(* x_first_derivative (d = 2, open positive quadrant) is the mixed partial derivative of the copula ... *)
-Theorem C11_mixed_derivative_partial : forall th et u v, 0 < th -> 0 < u -> 0 < v ->
-  is_derive (fun y => clayton th et [Fin u; Fin y]) v (et * dCv th u v) /\
-  is_derive (fun x => et * dCv th x v) u (clayton_xderiv2 th et u v).
-Proof. exact clayton_xderiv2_is_mixed_partial. Qed.
+(* x_first_derivative, d = 2, all four open quadrants: the mixed partial derivative of the copula is
+   sign(u) sign(v) * x_first_derivative(u, v)  (clD1 is the first partial in v).  Full statement also for d = 3: finite differences only. *)
+Theorem C11_mixed_derivative_partial : forall th et u v, 0 < th -> u <> 0 -> v <> 0 ->
+  is_derive (fun y => clayton th et [Fin u; Fin y]) v (clD1 th et u v) /\
+  is_derive (fun x => clD1 th et x v) u (sg u * sg v * clayton_xderiv2 th et u v).
+Proof. exact clayton_mixed_partial. Qed.
 
 (* ... and therefore NOT "the mixed partial times the product of its arguments" (finding F-C11-1) *)
 Theorem C11_mixed_derivative_times_product_refuted :
@@ -83,8 +99,10 @@ Proof. vm_compute. repeat split. Qed.
 Print Assumptions C11_grounded.
 Print Assumptions C11_margins_identity.
 Print Assumptions C11_indep_increasing.
-Print Assumptions C11_dep_increasing_partial.
-Print Assumptions C11_clayton_2_increasing_partial.
+Print Assumptions C11_dep_increasing.
+Print Assumptions C11_clayton_increasing.
+Print Assumptions C11_conditional_distribution.
 Print Assumptions C11_conditional_inverse.
 Print Assumptions C11_mixed_derivative_partial.
 Print Assumptions C11_mixed_derivative_times_product_refuted.
+Print Assumptions C11_nonvacuous.
